@@ -2,9 +2,12 @@
    the proved region and the finding classes of its complement.  Definitions only (executable: the
    harness evaluates the classifier through the driver).
 
+   pure_utils.fill is textwrap.fill with break_long_words=False and break_on_hyphens=False: it never cuts
+   a word; a word longer than the width overflows, alone on its line.
+
    What is GUARD (needed by the theorems, checked by [finding_class_C18]):
-     - no tab in any wrapped text, no hyphen the splitter of textwrap may break at, every word no
-       longer than the width  (= the fragment on which Fill.fill answers);
+     - no tab in any wrapped text (= the fragment on which Fill.fill answers: tab expansion is column
+       dependent and outside the model);
      - lines whose wrapping is itself the defect fit in the width and are single lines (ReST :type/:rtype
        lines, every numpydoc parameter line, the :returns: line of the argparse docstring; for the last two
        a multi-line prose is already misread when NOT wrapped, and wrapping joins it);
@@ -39,6 +42,13 @@ Definition no_exotic_space (s : str) : bool := forallb (fun c => Bool.eqb (isspa
 (* ---- statements about Fill.fill ---- *)
 Definition lines_le (w : nat) (r : str) : Prop := Forall (fun l => List.length l <= w) (split_nl r).
 
+(* a line without any blank: a single word *)
+Definition one_word (l : str) : bool := forallb (fun c => negb (tw_space c)) l.
+
+(* every line fits, or is a single word that is longer than the width (break_long_words=False) *)
+Definition lines_le_or_word (w : nat) (r : str) : Prop :=
+  Forall (fun l => List.length l <= w \/ one_word l = true) (split_nl r).
+
 (* no line ends with a blank, no line other than the first starts with one *)
 Definition starts_with_space (l : str) : bool := match l with c :: _ => ascii_eqb c sp | [] => false end.
 Definition ends_with_space (l : str) : bool := match last_c l with Some c => ascii_eqb c sp | None => false end.
@@ -51,18 +61,13 @@ Definition clean_edges (r : str) : Prop :=
 
 (* the property of fill at one point of its fragment *)
 Definition C18_fill_at (w : nat) (s r : str) : Prop :=
-  lines_le w r /\ words r = words s /\ clean_edges r.
+  lines_le_or_word w r /\ words r = words s /\ clean_edges r.
 
-(* the fragment on which Fill.fill answers, as a boolean: positive width, no tab, no hyphen at which the
-   splitter of textwrap may break, no word (and no run of blanks) longer than the width *)
-Definition fill_guard (w : nat) (s : str) : bool :=
-  Nat.ltb 0 w && negb (mem_c tabch s) && negb (risky_hyphen None s)
-  && forallb (fun c => Nat.leb (List.length c) w) (chunks (replace_ws s)).
+(* the fragment on which Fill.fill answers, as a boolean: positive width, no tab *)
+Definition fill_guard (w : nat) (s : str) : bool := Nat.ltb 0 w && negb (mem_c tabch s).
 
-(* a class of inputs inside the guard, described without reference to the model's internals: words without
-   whitespace or hyphen, each no longer than the width, separated by single blanks *)
-Definition plain_word (w : nat) (u : str) : bool :=
-  nonempty u && forallb (fun c => negb (tw_space c) && negb (ascii_eqb c (ch 45))) u && Nat.leb (List.length u) w.
+(* a word: non-empty, no whitespace (hyphens, punctuation, anything else allowed) *)
+Definition plain_word (u : str) : bool := nonempty u && forallb (fun c => negb (tw_space c)) u.
 
 (* what docstring_parsers._set_name_and_type does to a prose block when word_wrap is on *)
 Definition rejoin (t : str) : str := join [sp] (map strip (split_nl t)).
@@ -90,7 +95,7 @@ Definition C18_type_line_statement : Prop :=
 (* text that fill leaves alone when it fits: one line, blanks are plain spaces, does not end in a blank *)
 Definition one_line_clean (s : str) : bool :=
   forallb (fun c => negb (tw_space c) || ascii_eqb c sp) s && negb (ends_with_space s)
-  && negb (mem_c tabch s) && negb (risky_hyphen None s).
+  && negb (mem_c tabch s).
 
 Definition fits (w : nat) (s : str) : bool := Nat.leb (List.length s) w.
 
@@ -99,9 +104,7 @@ Inductive emitter : Type := E_docstring (st : style) | E_class | E_function | E_
 
 Inductive c18_class : Type :=
 | K18_unmodelled          (* a tab in wrapped text: expand_tabs is outside the model *)
-| K18_long_word           (* a word longer than the width: break_long_words cuts it *)
 | K18_header              (* ":param name:" does not fit: the break falls between ":param" and the name *)
-| K18_hyphen              (* break_on_hyphens may split a hyphenated word *)
 | K18_type_line           (* a ReST :type/:rtype line is wrapped: newline + indent stay inside the type *)
 | K18_numpydoc_cont       (* a numpydoc parameter line is wrapped: continuation lines are flush left *)
 | K18_argparse_returns    (* the :returns: line of the argparse docstring is wrapped: only its first line is read *)
@@ -110,9 +113,7 @@ Inductive c18_class : Type :=
 Definition class_name18 (k : c18_class) : str :=
   match k with
   | K18_unmodelled => L "unmodelled"
-  | K18_long_word => L "long-word-broken"
   | K18_header => L "param-header-wrapped"
-  | K18_hyphen => L "hyphen-break"
   | K18_type_line => L "wrapped-type-line"
   | K18_numpydoc_cont => L "numpydoc-continuation-lost"
   | K18_argparse_returns => L "argparse-returns-continuation-lost"
@@ -183,9 +184,6 @@ Definition pieces_of (e : emitter) (i : ir) : pieces :=
 (* one logical line: embedded newlines are blanks to fill *)
 Definition flat_len (s : str) : nat := List.length s.
 
-Definition has_long_word (w : nat) (s : str) : bool :=
-  existsb (fun c => negb (is_space_chunk c) && Nat.ltb w (List.length c)) (chunks (replace_ws s)).
-
 (* a default sentence in the line of a fragile entry (typed parameters are re-joined before the search) *)
 Definition default_sentence_fragile (fragile : bool) (line : str) : bool :=
   fragile && match location_within casefold line default_announces with Some _ => true | None => false end.
@@ -194,9 +192,7 @@ Definition finding_class_C18 (w : nat) (e : emitter) (i : ir) : option c18_class
   let pc := pieces_of e i in
   let all := map snd (pc_prose pc) ++ pc_fragile pc in
   if existsb (mem_c tabch) all then Some K18_unmodelled
-  else if existsb (has_long_word w) all then Some K18_long_word
   else if existsb (fun h => Nat.ltb w (List.length h)) (pc_headers pc) then Some K18_header
-  else if existsb (risky_hyphen None) all then Some K18_hyphen
   else if existsb (fun l => Nat.ltb w (flat_len l) || mem_c nl l) (pc_fragile pc) then
     Some (match e with
           | E_docstring Numpydoc => K18_numpydoc_cont
